@@ -30,6 +30,13 @@ Section Manip.
     | r :: m' => zipcons r (transpose m')
     end.
 
+  Fixpoint list_eqb {A} (eqb : A -> A -> bool) (a b : list A) : bool :=
+    match a, b with
+    | [], [] => true
+    | x :: a', y :: b' => andb (eqb x y) (list_eqb eqb a' b')
+    | _, _ => false
+    end.
+
   Definition all0 (row : list N) : bool := forallb is0 row.
   Definition nonzeros (g : list N) : list N := filter (fun x => negb (is0 x)) g.
 
@@ -82,12 +89,6 @@ Section Manip.
     ok (mkShell (ftype s) (region s) (am s) (map fst kept) (transpose (map snd kept))).
 
   (* ---------- structural equality of shells (Python dict ==) ---------- *)
-  Fixpoint list_eqb {A} (eqb : A -> A -> bool) (a b : list A) : bool :=
-    match a, b with
-    | [], [] => true
-    | x :: a', y :: b' => andb (eqb x y) (list_eqb eqb a' b')
-    | _, _ => false
-    end.
   Definition shell_eqb (a b : shell) : bool :=
     String.eqb (ftype a) (ftype b) && String.eqb (region a) (region b) && list_eqb Z.eqb (am a) (am b)
     && list_eqb eqN (exps a) (exps b) && list_eqb (list_eqb eqN) (coefs a) (coefs b).
@@ -103,6 +104,25 @@ Section Manip.
   Definition prune_basis (b : basis) : res basis := mapM_elems (map_shellsM prune_shells) b.
 
   (* ---------- uncontract_spdf ---------- *)
+  (* _split_function_type: a part holding only s and p functions loses the spherical/cartesian tag *)
+  Definition zmax (a : list Z) : Z := fold_left Z.max a (hd 0%Z a).
+  Fixpoint stake (n : nat) (s : string) : string :=
+    match n, s with
+    | S k, String c t => String c (stake k t)
+    | _, _ => EmptyString
+    end.
+  Definition strip_suffix (suf s : string) : option string :=
+    if str_suffix suf s then Some (stake (String.length s - String.length suf) s) else None.
+  Definition split_function_type (ft : string) (a : list Z) : string :=
+    match a with
+    | [] => ft
+    | _ => if (zmax a <=? 1)%Z then
+             match strip_suffix "_spherical" ft with
+             | Some r => r
+             | None => match strip_suffix "_cartesian" ft with Some r => r | None => ft end
+             end
+           else ft
+    end.
   (* walk am[g], coeff[g] for g in range(len(coefficients)); am[g] beyond the list is an IndexError *)
   Fixpoint split_fused (max_am : Z) (s : shell) (ams : list Z) (cs : list (list N))
            (kept_am : list Z) (kept_c : list (list N)) (out : list shell) : res (list Z * list (list N) * list shell) :=
@@ -113,7 +133,8 @@ Section Manip.
       | [] => fail EIndex
       | l :: ams' =>
         if (l >? max_am)%Z
-        then split_fused max_am s ams' cs' kept_am kept_c (out ++ [mkShell (ftype s) (region s) [l] (exps s) [c]])
+        then split_fused max_am s ams' cs' kept_am kept_c
+                          (out ++ [mkShell (split_function_type (ftype s) [l]) (region s) [l] (exps s) [c]])
         else split_fused max_am s ams' cs' (kept_am ++ [l]) (kept_c ++ [c]) out
       end
     end.
@@ -126,7 +147,7 @@ Section Manip.
       if Nat.ltb 1 (List.length (am s)) then
         do r <- split_fused max_am s (am s) (coefs s) [] [] [];
         let '(ka, kc, out) := r in
-        unc_spdf_shells max_am t (mkShell (ftype s) (region s) ka (exps s) kc :: (news ++ out))
+        unc_spdf_shells max_am t (mkShell (split_function_type (ftype s) ka) (region s) ka (exps s) kc :: (news ++ out))
       else unc_spdf_shells max_am t (news ++ [s])
     end.
   Definition uncontract_spdf (max_am : Z) (b : basis) : res basis :=
@@ -143,11 +164,29 @@ Section Manip.
     prune_basis (map_elems (map_shells unc_gen_shells) b).
 
   (* ---------- uncontract_segmented ---------- *)
-  Definition unc_seg_shell (s : shell) : list shell :=
-    map (fun x => mkShell (ftype s) (region s) (am s) [x]
-                          (transpose [repeat one_lit (List.length (am s))])) (exps s).
+  Definition unit_shell (s : shell) (x : N) : shell :=
+    mkShell (ftype s) (region s) (am s) [x] (transpose [repeat one_lit (List.length (am s))]).
+  (* the unit shells without the seen-set: one per occurrence of a primitive *)
+  Definition unc_seg_shell (s : shell) : list shell := map (unit_shell s) (exps s).
+
+  (* seen_primitives: (tuple(am), float(exponent)) of the primitives already emitted for this element *)
+  Definition prim := (list Z * N)%type.
+  Definition prim_seen (a : list Z) (x : N) (seen : list prim) : bool :=
+    existsb (fun p => andb (list_eqb Z.eqb (fst p) a) (same (snd p) x)) seen.
+  Fixpoint unc_seg_prims (s : shell) (xs : list N) (seen : list prim) : list shell * list prim :=
+    match xs with
+    | [] => ([], seen)
+    | x :: t =>
+      if prim_seen (am s) x seen then unc_seg_prims s t seen
+      else let '(out, seen') := unc_seg_prims s t (seen ++ [(am s, x)]) in (unit_shell s x :: out, seen')
+    end.
+  Fixpoint unc_seg_shells (shs : list shell) (seen : list prim) : list shell :=
+    match shs with
+    | [] => []
+    | s :: t => let '(out, seen') := unc_seg_prims s (exps s) seen in out ++ unc_seg_shells t seen'
+    end.
   Definition uncontract_segmented (b : basis) : basis :=
-    map_elems (map_shells (flat_map unc_seg_shell)) b.
+    map_elems (map_shells (fun shs => unc_seg_shells shs [])) b.
 
   (* ---------- make_general ---------- *)
   Fixpoint am_leb (a b : list Z) : bool :=      (* list comparison used by sorted(all_am) *)
@@ -209,11 +248,19 @@ Section Manip.
   (* ---------- free primitives ---------- *)
   Definition is_single_column (c : list N) : bool := Nat.eqb (List.length (nonzeros c)) 1.
 
+  (* the momenta that go with the kept (contracted) columns of a fused shell; am[c] beyond the list is an IndexError,
+     which cannot happen when there is one contraction per momentum *)
+  Fixpoint kept_am (ams : list Z) (cs : list (list N)) : list Z :=
+    match ams, cs with
+    | l :: ams', c :: cs' => if is_single_column c then kept_am ams' cs' else l :: kept_am ams' cs'
+    | _, _ => []
+    end.
   Definition rm_free_shell (s : shell) : list shell :=
     let cs := filter (fun c => negb (is_single_column c)) (coefs s) in
     match cs with
     | [] => []
-    | _ => [mkShell (ftype s) (region s) (am s) (exps s) cs]
+    | _ => [mkShell (ftype s) (region s)
+                    (if Nat.ltb 1 (List.length (am s)) then kept_am (am s) (coefs s) else am s) (exps s) cs]
     end.
   Definition remove_free_primitives (b : basis) : res basis :=
     prune_basis (map_elems (map_shells (flat_map rm_free_shell)) b).
